@@ -497,13 +497,27 @@ def header_literals(cx, cls):
             if cx.idx.find_method(cls, fn.name) is not fn:
                 continue
             for n in ast.walk(fn.node):
-                if isinstance(n, ast.Assign) and any(isinstance(t, ast.Attribute) and U(t) == 'self._header' for t in n.targets):
-                    v = n.value
+                v = None
+                if isinstance(n, ast.Assign):
+                    for t in n.targets:
+                        if isinstance(t, ast.Attribute) and U(t) == 'self._header':
+                            v = n.value
+                        elif isinstance(t, (ast.Tuple, ast.List)) and isinstance(n.value, (ast.Tuple, ast.List)) and len(t.elts) == len(n.value.elts):
+                            for a_, b_ in zip(t.elts, n.value.elts):
+                                if isinstance(a_, ast.Attribute) and U(a_) == 'self._header':
+                                    v = b_
+                if v is not None:
                     keys = None
                     if isinstance(v, ast.Dict) and all(isinstance(x, ast.Constant) for x in v.keys):
                         keys = frozenset(x.value for x in v.keys)
                     elif isinstance(v, ast.Call) and callee_name(v) == 'dict' and not v.args:
                         keys = frozenset(kw.arg for kw in v.keywords if kw.arg)
+                    else:
+                        # an input-free expression that folds to a dict: dict(CONSTANT_PAIRS), dict.fromkeys(KEYS, 0), a helper that
+                        # returns one of these
+                        folded = cx.ce.try_ev(v, fn.mod, k, default=None)
+                        if isinstance(folded, dict) and all(isinstance(x, str) for x in folded):
+                            keys = frozenset(folded)
                     out.append((fn, n, keys))
     return out
 
@@ -570,14 +584,24 @@ def r11_header_fields_present(ck, cx, rule='R11'):
                         return None
                 reads, whole, stores = [], None, []
                 if ev.kind == 'assign' and isinstance(node, ast.Assign):
-                    reads_of(node.value, d, reads)
-                    flat = []
-                    for t in node.targets:
-                        flat += list(t.elts) if isinstance(t, (ast.Tuple, ast.List)) else [t]
-                    for t in flat:
+                    # one event per target: the target and the value with local aliases of the header substituted
+                    val = getattr(ev, '_sub', None)
+                    val = val if isinstance(val, ast.AST) else node.value
+                    tgt = getattr(ev, '_subt', None)
+                    tgt = tgt if isinstance(tgt, ast.AST) else ev.a
+                    prev_same = any(e2 is not ev and e2.kind == 'assign' and e2.node is node for e2 in fp.path.ev[:fp.path.ev.index(ev)])
+                    if not prev_same:
+                        reads_of(node.value if len(node.targets) > 1 or isinstance(node.targets[0], (ast.Tuple, ast.List)) else val, d, reads)
+                    tl = list(tgt.elts) if isinstance(tgt, (ast.Tuple, ast.List)) else [tgt]
+                    vl = list(val.elts) if isinstance(tgt, (ast.Tuple, ast.List)) and isinstance(val, (ast.Tuple, ast.List)) and len(val.elts) == len(tl) else None
+                    for ti, t in enumerate(tl):
                         if is_hdr(t):
-                            v = node.value
-                            whole = frozenset(x.value for x in v.keys) if isinstance(v, ast.Dict) and all(isinstance(x, ast.Constant) for x in v.keys) else frozenset()
+                            v = vl[ti] if vl is not None else (val if len(tl) == 1 else None)
+                            if isinstance(v, ast.Dict) and all(isinstance(x, ast.Constant) for x in v.keys):
+                                whole = frozenset(x.value for x in v.keys)
+                            else:
+                                folded = cx.ce.try_ev(v, ev.frame.func.mod, ev.frame.cls, default=None) if (ev.frame.func is not None and v is not None) else None
+                                whole = frozenset(folded) if isinstance(folded, dict) else frozenset()
                         k = _hdr_key(t)
                         if k is not None:
                             stores.append(k)
@@ -589,7 +613,8 @@ def r11_header_fields_present(ck, cx, rule='R11'):
                     if k is not None:
                         reads.append((k, node.target))
                 else:
-                    reads_of(node, d, reads)
+                    sub = getattr(ev, '_sub', None)
+                    reads_of(sub if isinstance(sub, ast.AST) and ev.kind in ('cond', 'call', 'return') else node, d, reads)
                 for k, x in reads:
                     if k not in d:
                         report(ev, k, x, start)
